@@ -229,6 +229,20 @@ macro_rules! codes_for {
                 kani::cover!(n > 1 << 62, "len reachable (large)");
             }
 
+            /// C20: the library's length function is non-decreasing in the value
+            pub fn mono(code: Code) {
+                let (a, k) = any_args(code);
+                let b: u64 = kani::any();
+                kani::assume(a <= b);
+                match code {
+                    Code::VByteBe | Code::VByteLe => {}
+                    Code::MinBin(u) => kani::assume(b < u),
+                    _ => kani::assume(b < u64::MAX),
+                }
+                kani::assert(lib_len(code, a, k) <= lib_len(code, b, k), "OBS c20.mono: codeword length is non-decreasing in the value");
+                kani::cover!(lib_len(code, a, k) < lib_len(code, b, k), "c20.mono reachable (strict step)");
+            }
+
             /// C03: written at any position with arbitrary surrounding bits, the
             /// code reads back the value and leaves the reader exactly at the end
             /// of the codeword. `wcode` and `rcode` may differ in table options.
@@ -394,6 +408,20 @@ macro_rules! harnesses_for {
             h!(len_rice, 12, $m::len(Code::Rice));
             h!(len_exp_golomb, 12, $m::len(Code::ExpGolomb));
             h!(len_vbyte, 12, $m::len(Code::VByteBe));
+            // ---- C20: monotone lengths ------------------------------------------
+            h!(mono_unary, 12, $m::mono(Code::Unary));
+            h!(mono_gamma, 12, $m::mono(Code::Gamma(false)));
+            h!(mono_gamma_t, 12, $m::mono(Code::Gamma(true)));
+            h!(mono_delta, 12, $m::mono(Code::Delta(false, false)));
+            h!(mono_delta_ft, 12, $m::mono(Code::Delta(false, true)));
+            h!(mono_delta_tt, 12, $m::mono(Code::Delta(true, true)));
+            h!(mono_omega, 12, $m::mono(Code::Omega));
+            h!(mono_zeta, 12, $m::mono(Code::Zeta(false)));
+            h!(mono_zeta_t, 12, $m::mono(Code::Zeta(true)));
+            h!(mono_pi, 12, $m::mono(Code::Pi));
+            h!(mono_rice, 12, $m::mono(Code::Rice));
+            h!(mono_exp_golomb, 12, $m::mono(Code::ExpGolomb));
+            h!(mono_vbyte, 12, $m::mono(Code::VByteBe));
             // ---- C03: round trips ----------------------------------------------
             h!(rt_unary, 12, $m::roundtrip(Code::Unary, Code::Unary, 16));
             h!(rt_gamma, 12, $m::roundtrip(Code::Gamma(true), Code::Gamma(false), 16));
@@ -466,9 +494,12 @@ macro_rules! harnesses_for {
         }
     };
 }
+#[cfg(feature = "m_codes")]
 harnesses_for!(be, hbe);
+#[cfg(feature = "m_codes")]
 harnesses_for!(le, hle);
 
+#[cfg(feature = "m_codes")]
 pub mod tables {
     use super::*;
     h!(gamma_be, 12, table_gamma_be());
@@ -483,16 +514,19 @@ pub mod tables {
 /// symbolic 64-bit divisor; the unbounded modulus is Engine C's obligation).
 macro_rules! golomb_grid {
     ($($name:ident = $b:expr),*) => {
+        #[cfg(feature = "m_golomb")]
         pub mod golomb_be { use super::*; $(
             pub mod $name {
                 use super::*;
                 h!(def, 12, be::def(Code::Golomb($b)));
                 h!(len, 12, be::len(Code::Golomb($b)));
                 h!(rt, 12, be::roundtrip(Code::Golomb($b), Code::Golomb($b), 16));
+                h!(mono, 12, be::mono(Code::Golomb($b)));
                 h!(mb_def, 12, be::def(Code::MinBin($b)));
                 h!(mb_rt, 12, be::roundtrip(Code::MinBin($b), Code::MinBin($b), 16));
             }
         )* }
+        #[cfg(feature = "m_golomb")]
         pub mod golomb_le { use super::*; $(
             pub mod $name {
                 use super::*;
